@@ -1,6 +1,7 @@
 import RreModel.Proto
 import RreModel.C12.Spec
 import RreModel.C12.Spec2
+import RreModel.C12.Clear
 /-
 Driver for C12 (see harness/src/bin/c12.rs for the line formats).
   drv_c12 model   : case        ↦ observation predicted by the model
@@ -90,6 +91,27 @@ def parseTWOp (i : Nat) (tok : String) : Option TWOp :=
   else if tok.startsWith "r" then (parseEv i rest).map fun p => .record p.1
   else none
 
+/-- an op list with `c` (= `clear()`) tokens: the events are numbered in the order they are offered, clears do not count -/
+def parseCOps {α : Type} (f : Nat → String → Option α) : Nat → List String → Option (List (COp α))
+  | _, [] => some []
+  | k, tok :: rest =>
+    if tok = "c" then (parseCOps f k rest).map (COp.clear :: ·)
+    else do
+      let a ← f k tok
+      let r ← parseCOps f (k + 1) rest
+      pure (COp.op a :: r)
+
+def copEvents {α : Type} : List (COp α) → List α
+  | [] => []
+  | .op a :: r => a :: copEvents r
+  | .clear :: r => copEvents r
+
+/-- did the history go on after a clear? -/
+def reusedAfterClear {α : Type} : List (COp α) → Bool
+  | [] => false
+  | .clear :: r => r.any (fun o => match o with | .op _ => true | .clear => false) || reusedAfterClear r
+  | _ :: r => reusedAfterClear r
+
 def parseANOp (i : Nat) (tok : String) : Option ANOp :=
   match tok.splitOn "@" with
   | [now, ev] => do
@@ -114,6 +136,9 @@ inductive Case where
   | ev (vs : List EVal)                                   -- get_numeric / get_string / get_boolean
   | as (w : AWin) (cap : Nat) (ops : List ANOp)           -- StreamAlphaNode statistics
   | sa (t2 : Int) (idx : List Nat) (es : List AEv)        -- StreamAnalytics::detect_anomalies / calculate_trend
+  | twc (t : WType) (d start cap : Nat) (ops : List (COp TWOp))   -- TW / AN / AN E histories with `c` = clear() tokens
+  | anc (w : AWin) (cap : Nat) (ops : List (COp ANOp))
+  | ansc (timeout cap : Nat) (ops : List (COp ANOp))
 
 def parseEVal (s : String) : Option EVal :=
   let rest := String.ofList (s.toList.drop 1)
@@ -153,6 +178,9 @@ def parseCase (line : String) : Option Case :=
     pure (.as w (← c.toNat?) ops)
   | ["TW", t, d, s, c, ops] => do
     let t ← parseWType t
+    if (items ops).contains "c" then
+      pure (.twc t (← parseDur d) (← s.toNat?) (← c.toNat?) (← parseCOps parseTWOp 0 (items ops)))
+    else
     let ops ← (enum (items ops)).mapM fun (i, x) => parseTWOp i x
     pure (.tw t (← parseDur d) (← s.toNat?) (← c.toNat?) ops)
   | ["WM", t, d, c, m, es] => do
@@ -166,12 +194,18 @@ def parseCase (line : String) : Option Case :=
     pure (.ag (← (enum (items es)).mapM fun (i, t) => parseAEv i t))
   | ["XV", k, es] => if k = "r" ∨ k = "a" then (items es).mapM parseXEv |>.map .xv else none
   | ["AN", "E", d, c, ops] => do
+    if (items ops).contains "c" then
+      pure (.ansc (← parseDur d) (← c.toNat?) (← parseCOps parseANOp 0 (items ops)))
+    else
     let ops ← (enum (items ops)).mapM fun (i, x) => parseANOp i x
     pure (.ans (← parseDur d) (← c.toNat?) ops)
   | ["AN", w, d, c, ops] => do
     let d ← parseDur d
     let w ← (if w = "-" then some AWin.none else if w = "S" then some (AWin.sliding d)
              else if w = "T" then some (AWin.tumbling d) else none)
+    if (items ops).contains "c" then
+      pure (.anc w (← c.toNat?) (← parseCOps parseANOp 0 (items ops)))
+    else
     let ops ← (enum (items ops)).mapM fun (i, x) => parseANOp i x
     pure (.an w (← c.toNat?) ops)
   | _ => none
@@ -309,6 +343,14 @@ def modelLine (line : String) : String :=
     | none => "panic"
   | some (.ts t d s c a b ops) => showTS (tsModel (TW.new t d s c) a b ops)
   | some (.ev vs) => if vs.isEmpty then "-" else ",".intercalate (vs.map showEV)
+  | some (.twc t d s c ops) => joinSteps ((twTraceC divBits (TW.new t d s c) ops).map showTWObs)
+  | some (.anc w c ops) =>
+    match anTraceC { window := w, cap := c, events := [] } ops with
+    | some tr => joinSteps (tr.map fun o => s!"{b01 o.ret}/{showIds o.events}")
+    | none => "panic"
+  | some (.ansc timeout c ops) =>
+    joinSteps ((ansTraceC { timeout := timeout, cap := c, events := [], last := none } ops).map
+      fun o => s!"{b01 o.ret}/{showIds o.events}")
   | some (.sa t2 idx es) =>
     let ws := windowsByIndex idx es
     s!"{showNats (detectAnomalies floatOps floatCmp (Float.ofInt t2 / 2.0) ws)}/{showTrend (calcTrend floatOps floatCmp ws)}"
@@ -485,6 +527,44 @@ def twFirstBad (t : WType) (d cap : Nat) : Nat → TWObs → List TWOp → List 
           | .add _ => "add-event"
       some (i, why)
   | i, _, _, _ => some (i, "length")
+
+def twFirstBadC (t : WType) (d cap : Nat) : Nat → TWObs → List (COp TWOp) → List TWObs → Option (Nat × String)
+  | _, _, [], [] => none
+  | i, o, op :: ops, o' :: os =>
+    if twStepOkC divBits t d cap o op o' then twFirstBadC t d cap (i + 1) o' ops os
+    else
+      let why :=
+        if !(o'.aggs.all (aggOk divBits o'.events) && aggOk3 divBits o'.events o'.agg3) then "aggregate"
+        else match op with
+          | .clear => "clear"
+          | .op (.record _) => if !(o'.events.all fun x => decide (o'.start ≤ x.ts)) then "record-retains-too-old"
+                               else "record-retained-set"
+          | .op (.add _) => "add-event"
+      some (i, why)
+  | i, _, _, _ => some (i, "length")
+
+def anFirstBadC (w : AWin) (cap : Nat) : Nat → List Ev → List (COp ANOp) → List ANObs → Option (Nat × String)
+  | _, _, [], [] => none
+  | i, o, .op op :: ops, o' :: os =>
+    if anStepOk w cap o op o' then anFirstBadC w cap (i + 1) o'.events ops os
+    else
+      let why :=
+        if o'.ret != (op.pass && w.inSpan op.now op.e.ts) then "accept"
+        else if o'.ret && !(o'.events.all fun x => w.live op.now x.ts) then "retains-outside-window"
+        else "retained-set"
+      some (i, why)
+  | i, _, .clear :: ops, o' :: os =>
+    if o'.ret && o'.events.isEmpty then anFirstBadC w cap (i + 1) [] ops os else some (i, "clear")
+  | i, _, _, _ => some (i, "length")
+
+def ansFirstBadC (timeout cap : Nat) : Nat → Option Nat → List Ev → List (COp ANOp) → List ANObs → Option (Nat × String)
+  | _, _, _, [], [] => none
+  | i, last, o, .op op :: ops, o' :: os =>
+    if ansStepOk timeout cap last o op o' then ansFirstBadC timeout cap (i + 1) (sessLast timeout last op) o'.events ops os
+    else some (i, if o'.ret != op.pass then "session-accept" else "session-retained-set")
+  | i, _, _, .clear :: ops, o' :: os =>
+    if o'.ret && o'.events.isEmpty then ansFirstBadC timeout cap (i + 1) none [] ops os else some (i, "clear")
+  | i, _, _, _, _ => some (i, "length")
 
 def wmFirstBad (d cap maxW : Nat) : Nat → List WObs → List Ev → List (List WObs) → Option Nat
   | _, _, [], [] => none
@@ -791,6 +871,51 @@ def oracleCase (c : Case) (obs : String) : String :=
            ++ (if os.any (fun o => o.events.length == cap) then ["at-cap"] else [])
            ++ (if os.any (fun o => o.events.length ≥ 2) then ["shared-session"] else [])
            ++ (if lateWipe timeout [] ops os then ["late-wipe"] else []))
+  | .twc t d s cap ops =>
+    let tbl := (copEvents ops).map (·.ev)
+    match (steps obs).mapM (parseTWObs tbl) with
+    | none => "fail tw-unparsable-observation"
+    | some os =>
+      match twFirstBadC t d cap 0 (twInitObs s d) ops os with
+      | some (i, why) => s!"fail tw-{why}@{i}"
+      | none =>
+        -- consistency of the executable oracle with the stated one
+        if !twRunOkC divBits t d cap (twInitObs s d) ops os then "fail tw-runOkC"
+        else
+        tagsOf "TW" (tbl.map (·.ts))
+          (["clear"] ++ (if reusedAfterClear ops then ["reused-after-clear"] else [])
+           ++ (if os.any (fun o => !o.ret) then ["refused"] else [])
+           ++ (if os.any (fun o => o.events.length == cap) then ["at-cap"] else []))
+  | .anc w cap ops =>
+    let evs := copEvents ops
+    let willPanic := (match w with | .tumbling 0 => true | _ => false) && evs.any (·.pass)
+    if obs = "panic" then (if willPanic then "ok AN panic-zero-duration" else "fail an-unexpected-panic")
+    else if willPanic then "fail an-expected-panic"
+    else
+      let tbl := evs.map (·.e)
+      match (steps obs).mapM (parseANObs tbl) with
+      | none => "fail an-unparsable-observation"
+      | some os =>
+        match anFirstBadC w cap 0 [] ops os with
+        | some (i, why) => s!"fail an-{why}@{i}"
+        | none =>
+          if !anRunOkC w cap [] ops os then "fail an-runOkC"
+          else
+          let kind := match w with | .none => "no-window" | .sliding _ => "sliding" | .tumbling _ => "tumbling"
+          tagsOf "AN" (tbl.map (·.ts))
+            ([kind, "clear"] ++ (if reusedAfterClear ops then ["reused-after-clear"] else []))
+  | .ansc timeout cap ops =>
+    let tbl := (copEvents ops).map (·.e)
+    match (steps obs).mapM (parseANObs tbl) with
+    | none => "fail an-unparsable-observation"
+    | some os =>
+      match ansFirstBadC timeout cap 0 none [] ops os with
+      | some (i, why) => s!"fail an-{why}@{i}"
+      | none =>
+        if !ansRunOkC timeout cap none [] ops os then "fail an-runOkC"
+        else
+        tagsOf "AN" (tbl.map (·.ts))
+          (["session", "clear"] ++ (if reusedAfterClear ops then ["reused-after-clear"] else []))
   | .an w cap ops =>
     let willPanic := (match w with | .tumbling 0 => true | _ => false) && ops.any (·.pass)
     if obs = "panic" then (if willPanic then "ok AN panic-zero-duration" else "fail an-unexpected-panic")
